@@ -42,6 +42,16 @@ type NameProviderFunc func(rand *mathrand.Rand, baseName string) string
 func Obfuscate(rand *mathrand.Rand, file *ast.File, info *types.Info, linkStrings map[*types.Var]string, nameFunc NameProviderFunc) *ast.File {
 	or := newObfRand(rand, file, nameFunc)
 	pre := func(cursor *astutil.Cursor) bool {
+		if expr, ok := cursor.Node().(ast.Expr); ok {
+			// A constant expression of a kind other than string, such as len(prefix)
+			// for a typed string constant, is folded by the compiler, so the strings
+			// it mentions never reach the binary. It may also be required to remain
+			// a constant, like an array length; replacing a string inside it with
+			// a function call would break the build.
+			if value := info.Types[expr].Value; value != nil && value.Kind() != constant.String {
+				return false
+			}
+		}
 		switch node := cursor.Node().(type) {
 		case *ast.FuncDecl:
 			// Obfuscating literals can push the stack frame over the //go:nosplit limit,
